@@ -35,7 +35,83 @@ from circuits.net.events import close as close_ev
 from circuits.net.events import connect as connect_ev
 from circuits.net.events import write as write_ev
 
+from collections import deque
+
 KINDS = ('Select', 'Poll', 'EPoll')
+CONT = (dict, list, set, frozenset, tuple, deque)
+BYTESLIKE = (bytes, bytearray, memoryview)
+DEGRADED = set()      # observables that could not be obtained in this run (recorded in the evidence)
+
+
+def _is_buf(v):
+    """buffer-like value: a sequence that is empty or holds only bytes-like payloads"""
+    return isinstance(v, (list, deque, tuple)) and all(isinstance(x, BYTESLIKE) for x in v)
+
+
+def scan(owner, socks, depth=4):
+    """Name- and type-independent residue scan: where are the socket objects `socks` referenced from the attributes
+    of `owner` (recursively through dict / list / set / deque / tuple, bounded depth)?
+    -> {id(sock): {'plain': #sequences/sets holding it, 'key': #dicts keyed by it (non-buffer value),
+                   'bufkey': #dicts keyed by it whose value is a payload buffer, 'buf': [payload lengths],
+                   'val': #dict values that are it, 'attr': #attributes that are it}}"""
+    res = {id(x): {'plain': 0, 'key': 0, 'bufkey': 0, 'buf': [], 'val': 0, 'attr': 0} for x in socks}
+    seen = set()
+
+    def walk(v, d):
+        if id(v) in seen or d < 0:
+            return
+        seen.add(id(v))
+        if isinstance(v, dict):
+            for k, x in list(v.items()):
+                if id(k) in res:
+                    if _is_buf(x):
+                        res[id(k)]['bufkey'] += 1
+                        res[id(k)]['buf'] += [len(y) for y in x]
+                    else:
+                        res[id(k)]['key'] += 1
+                if id(x) in res:
+                    res[id(x)]['val'] += 1
+                elif isinstance(x, CONT):
+                    walk(x, d - 1)
+        else:
+            hit = set()
+            for x in list(v):
+                if id(x) in res:
+                    hit.add(id(x))
+                elif isinstance(x, CONT):
+                    walk(x, d - 1)
+            for h in hit:
+                res[h]['plain'] += 1
+    for _name, v in list(vars(owner).items()):
+        if id(v) in res:
+            res[id(v)]['attr'] += 1
+        elif isinstance(v, CONT):
+            walk(v, depth)
+    return res
+
+
+def first_attr(obj, names, what):
+    """look an observable up by meaning through a small table of candidate names; None (and a note) if absent"""
+    for n in names:
+        if hasattr(obj, n):
+            return getattr(obj, n)
+    DEGRADED.add(what)
+    return None
+
+
+def blame(exc):
+    """'impl' if the deepest frame of the traceback that belongs to circuits or to this harness is circuits code"""
+    who = 'harness'
+    tb = exc.__traceback__
+    here = os.path.dirname(os.path.abspath(__file__))
+    while tb is not None:
+        f = os.path.abspath(tb.tb_frame.f_code.co_filename)
+        if f.startswith(here):
+            who = 'harness'
+        elif os.sep + 'circuits' + os.sep in f:
+            who = 'impl'
+        tb = tb.tb_next
+    return who
 BUFSIZE = 64          # server/client recv size: sends above 64 bytes need several recv()s
 SNDBUF = 4608         # kernel send buffer of accepted sockets: a few KB fill it
 MAXTICKS = 60
@@ -155,6 +231,25 @@ def _fire_hook(poller, log, sid):
     poller.fire = fire
 
 
+def fdset():
+    try:
+        return {int(x) for x in os.listdir('/proc/self/fd')}
+    except OSError:
+        return set()
+
+
+def dispose_poller(poller, new_fds):
+    """release what the poller opened (control pipe, kernel poll object) wherever it keeps it"""
+    for v in list(vars(poller).values()):
+        try:
+            if isinstance(v, socket.socket) or (hasattr(v, 'register') and hasattr(v, 'close')):
+                v.close()
+            elif isinstance(v, int) and not isinstance(v, bool) and v in new_fds:
+                os.close(v)
+        except OSError:
+            pass
+
+
 class ServerRun:
     def __init__(self, kind, family):
         self.kind, self.family = kind, family
@@ -175,7 +270,9 @@ class ServerRun:
         self.addr = ls.getsockname()
         self.ls = ls
         self.m = Manager()
+        before = fdset()
         self.poller = getattr(P, kind)().register(self.m)
+        self.poller_fds = fdset() - before
         cls = S.UNIXServer if family == 'unix' else S.TCPServer
         self.server = cls(ls, bufsize=BUFSIZE).register(self.m)
         self.probe = Probe(log=self.log, sid=self.sid).register(self.m)
@@ -183,6 +280,12 @@ class ServerRun:
         self.peers = {}          # conn -> peer socket (None once closed)
         self.order = []          # conn ids in the order their connect() was issued
         self.sent = {}           # conn -> number of bytes the peer has sent
+        # reference: every connection has a shadow on raw sockets that gets the same peer actions (and the server's
+        # writes) but is read only at the very end -> what the kernel still delivers to a reader after all that
+        self.ls2 = socket.socket(ls.family, socket.SOCK_STREAM)
+        self.ls2.bind(os.path.join(self.tmp, 'r') if family == 'unix' else ('127.0.0.1', 0))
+        self.ls2.listen(64)
+        self.shadow = {}         # conn -> [peer side, server side]
         self.m._running = True
         self.settle()
 
@@ -204,39 +307,24 @@ class ServerRun:
     def conn_of(self, sid):
         return self.order[sid] if 0 <= sid < len(self.order) else sid
 
-    # ---- tables
+    # ---- tables, by meaning and without private names (see scan)
     def tables(self):
-        s, p = self.server, self.poller
-        live = list(s._clients)
-        sid = self.sid
-        bufs = sorted([sid(k), [len(x) for x in v]] for k, v in s._buffers.items() if len(v) and k in live)
-        stale = sorted(sid(k) for k in s._buffers if k not in live and k is not self.ls)
-        mp = []
-        if hasattr(p, '_map'):
-            mp = sorted(sid(v) for v in p._map.values() if isinstance(v, socket.socket) and v is not self.ls)
-        return [sorted(sid(k) for k in live), bufs, stale, sorted(sid(k) for k in s._closeq),
-                sorted(sid(k) for k in p._read if isinstance(k, socket.socket) and k is not self.ls),
-                sorted(sid(k) for k in p._write if isinstance(k, socket.socket)),
-                sorted(sid(k) for k in p._targets if isinstance(k, socket.socket) and k is not self.ls),
-                mp, self.listen_tables()]
-
-    def listen_tables(self):
-        """numbers of the tables that (still) hold the listening socket"""
-        s, p, ls = self.server, self.poller, self.ls
-        out = []
-        if ls in s._buffers:
-            out.append(1)
-        if ls in s._closeq:
-            out.append(3)
-        if ls in p._read:
-            out.append(4)
-        if ls in p._write:
-            out.append(5)
-        if ls in p._targets:
-            out.append(6)
-        if any(v is ls for v in getattr(p, '_map', {}).values()):
-            out.append(7)
-        return out
+        made, ls = self.ls.made, self.ls
+        srv = scan(self.server, made + [ls])
+        pol = scan(self.poller, made + [ls])
+        rows = []
+        for x in made:
+            a, b = srv[id(x)], pol[id(x)]
+            is_open = x.fileno() >= 0
+            track = a['plain'] + a['key']
+            residue = 1 if (not is_open and a['bufkey'] + a['val'] + a['attr'] > 0) else 0
+            prow = [b['plain'], b['key'] + b['bufkey'], b['val']]
+            if is_open or track or residue or any(prow):
+                rows.append([x.sid, 1 if is_open else 0, track, residue, a['buf'] if is_open else []] + prow)
+        a, b = srv[id(ls)], pol[id(ls)]
+        lrow = [1 if ls.fileno() >= 0 else 0, a['plain'] + a['key'] + a['bufkey'] + a['val'],
+                b['plain'], b['key'] + b['bufkey'], b['val']]
+        return [rows, lrow]
 
     def settle(self, final=False):
         """zero-timeout ticks until three consecutive ticks change neither the tables nor the observer's view.
@@ -247,20 +335,23 @@ class ServerRun:
             same, last = 0, None
             for _ in range(MAXTICKS):
                 self.m.tick(0)
-                cur = (common.canon(self.tables()), len(self.probe.seen), len(self.m._queue))
+                cur = (common.canon(self.tables()), len(self.probe.seen), len(self.m))
                 same = same + 1 if (cur == last and cur[2] == 0) else 0
                 last = cur
                 if same >= 3:
                     break
             return last
+        def all_down():
+            return not any(x.fileno() >= 0 for x in self.ls.made)
         cur = stable()
-        if self.family == 'tcp':
+        if self.family == 'tcp' or final:
             for _ in range(60 if final else 2):
-                if final and not self.server._clients:
+                if final and all_down():
                     break
-                time.sleep(0.003)
+                if self.family == 'tcp':
+                    time.sleep(0.003)
                 nxt = stable()
-                if nxt == cur and not final:
+                if nxt == cur and (not final or self.family != 'tcp'):
                     break
                 cur = nxt
         t = self.tables()
@@ -286,33 +377,51 @@ class ServerRun:
             self.peers[c] = ps
             self.order.append(c)
             self.sent[c] = 0
+            sp = socket.socket(fam, socket.SOCK_STREAM)
+            sp.connect(self.ls2.getsockname())
+            ss, _ = self.ls2.accept()
+            sp.setblocking(False)
+            ss.setblocking(False)
+            self.shadow[c] = [sp, ss]
             return True
         if k in ('send', 'shutwr', 'pclose', 'preset', 'pdrain'):
             if p is None:
                 return False
+            sp = self.shadow[c][0]
             if k == 'send':
                 try:
                     n = p.send(pattern(c, self.sent[c], op[2]))
                 except OSError:
                     return False
+                try:
+                    sp.send(pattern(c, self.sent[c], n))
+                except OSError:
+                    pass
                 self.sent[c] += n
             elif k == 'shutwr':
                 try:
                     p.shutdown(socket.SHUT_WR)
                 except OSError:
                     return False
-            elif k == 'pdrain':
                 try:
-                    while p.recv(65536):
-                        pass
+                    sp.shutdown(socket.SHUT_WR)
                 except OSError:
                     pass
+            elif k == 'pdrain':
+                for q in (p, sp):
+                    try:
+                        while q.recv(65536):
+                            pass
+                    except OSError:
+                        pass
             else:
                 if k == 'preset':
                     # abort: RST for TCP (SO_LINGER 0); for AF_UNIX closing with unread data resets the other side
                     if self.family == 'tcp':
-                        p.setsockopt(socket.SOL_SOCKET, socket.SO_LINGER, struct.pack('ii', 1, 0))
+                        for q in (p, sp):
+                            q.setsockopt(socket.SOL_SOCKET, socket.SO_LINGER, struct.pack('ii', 1, 0))
                 p.close()
+                sp.close()
                 self.peers[c] = None
             return True
         if k in ('write', 'close'):
@@ -321,6 +430,10 @@ class ServerRun:
                 return False
             if k == 'write':
                 self.m.fire(write_ev(sock, b'w' * op[2]), 'server')
+                try:
+                    self.shadow[c][1].send(b'w' * min(op[2], 4096))
+                except OSError:
+                    pass
             else:
                 self.m.fire(close_ev(sock), 'server')
             return True
@@ -335,24 +448,41 @@ class ServerRun:
         for c, p in list(self.peers.items()):
             if p is not None:
                 p.close()
+                self.shadow[c][0].close()
                 self.peers[c] = None
         self.settle(final=True)
 
+    def reference(self):
+        """bytes a raw reader gets from each shadow connection when it starts reading only now (until EOF / error)"""
+        out = []
+        for c in self.order:
+            ss = self.shadow[c][1]
+            n, waits = 0, 0
+            while True:
+                try:
+                    d = ss.recv(65536)
+                except (BlockingIOError, InterruptedError):
+                    waits += 1
+                    if waits > 20:
+                        break
+                    time.sleep(0.003)
+                    continue
+                except OSError:
+                    break
+                if not d:
+                    break
+                n += len(d)
+            out.append(n)
+        return out
+
     def dispose(self):
         self.m._running = False
-        for s in [self.ls] + self.ls.made:
+        for s in [self.ls, self.ls2] + self.ls.made + [x for pr in self.shadow.values() for x in pr]:
             try:
                 s.close()
             except OSError:
                 pass
-        for fd in (self.poller._ctrl_recv, self.poller._ctrl_send):
-            try:
-                os.close(fd) if isinstance(fd, int) else fd.close()
-            except OSError:
-                pass
-        pp = getattr(self.poller, '_poller', None)
-        if hasattr(pp, 'close'):
-            pp.close()
+        dispose_poller(self.poller, self.poller_fds)
         if self.tmp:
             shutil.rmtree(self.tmp, ignore_errors=True)
 
@@ -370,8 +500,7 @@ def run_server_case(case):
         r.finish()
         return {'log': canon_log(r.log), 'seen': r.probe.seen, 'applied': applied,
                 'order': r.order, 'sent': [r.sent.get(c, 0) for c in r.order],
-                'naccepted': len(r.ls.made), 'sock_none': r.server._sock is None,
-                'ls_closed': r.ls.fileno() < 0}
+                'naccepted': len(r.ls.made), 'ls_closed': r.ls.fileno() < 0, 'reference': r.reference()}
     finally:
         r.dispose()
 
@@ -450,7 +579,7 @@ class CProbe(BaseComponent):
 
     @handler('_read', '_write', '_disconnect', 'close', 'connect', priority=50)
     def _low(self, event, *a, **kw):
-        self.log.append(('h', event.name, bool(self.client._connected)))
+        self.log.append(('h', event.name, bool(self.client.connected)))
 
     @handler('write', priority=50)
     def _w(self, event, data=b'', *a):
@@ -458,7 +587,7 @@ class CProbe(BaseComponent):
 
     @handler('_write', priority=-50)
     def _after(self, event, *a):
-        self.log.append(('after', bool(self.client._connected)))
+        self.log.append(('after', bool(self.client.connected)))
 
     @handler('connected')
     def _connected(self, *a):
@@ -479,9 +608,27 @@ def run_client_case(case):
     tmp = None
 
     class CSock(RecSock):
-        pass
+        made = []
+
+        def __init__(self, *a, **kw):
+            super().__init__(*a, **kw)
+            CSock.made.append(self)
     CSock.log = log
     CSock.sid = 0
+
+    def sock_open():          # the client's current socket object is the last one it created
+        return bool(CSock.made) and CSock.made[-1].fileno() >= 0
+
+    def buffered():           # payloads the client holds: bytes-like items of its sequence attributes
+        out = []
+        for v in vars(cl).values():
+            if isinstance(v, (list, deque)) and v and _is_buf(v):
+                out += [len(x) for x in v]
+        return out
+
+    def close_pending():      # by meaning, through candidate names; None = not observable in this tree
+        v = first_attr(cl, ('_closeflag', '_close_pending', '_closing', '_close_flag'), 'client.close_pending')
+        return None if v is None else bool(v)
     if family == 'unix':
         tmp = tempfile.mkdtemp(prefix='c12c_')
         addr = os.path.join(tmp, 's')
@@ -496,7 +643,9 @@ def run_client_case(case):
     saved = S.socket
     S.socket = CSock
     m = Manager()
+    before = fdset()
     poller = getattr(P, kind)().register(m)
+    poller_fds = fdset() - before
     try:
         cl = (S.UNIXClient if family == 'unix' else S.TCPClient)(bufsize=BUFSIZE).register(m)
         probe = CProbe(log=log, client=cl).register(m)
@@ -507,7 +656,7 @@ def run_client_case(case):
             same, last, slept = 0, None, False
             for _ in range(MAXTICKS):
                 m.tick(0)
-                cur = (len(probe.seen), len(log), bool(cl._connected), len(cl._buffer), len(m._queue))
+                cur = (len(probe.seen), len(log), bool(cl.connected), len(buffered()), len(m))
                 same = same + 1 if (cur == last and cur[4] == 0) else 0
                 last = cur
                 if same >= 3:
@@ -529,19 +678,18 @@ def run_client_case(case):
         applied, sent, bad_connect, snaps = [], 0, False, []
 
         def dead_in_poller():
-            objs = list(poller._read) + list(poller._write) + list(poller._targets) + list(getattr(poller, '_map', {}).values())
-            return sum(1 for o in objs if isinstance(o, socket.socket) and o.fileno() < 0)
+            dead = [x for x in CSock.made if x.fileno() < 0]
+            return sum(1 for r in scan(poller, dead).values() if r['plain'] + r['key'] + r['bufkey'] + r['val'] + r['attr'])
 
         def csnap():
-            snaps.append([bool(cl._connected), len(cl._buffer), bool(cl._closeflag), cl._sock.fileno() >= 0,
-                          dead_in_poller()])
+            snaps.append([bool(cl.connected), len(buffered()), close_pending(), sock_open(), dead_in_poller()])
         for idx, op in enumerate(case['ops']):
             log.append(('op', idx, len(probe.seen)))
             k = op[0]
             peer = peers[-1] if peers and peers[-1].fileno() >= 0 else None
             ok = True
             if k == 'connect':
-                if cl._connected:
+                if cl.connected:
                     bad_connect = True
                 if family == 'unix':
                     m.fire(connect_ev(addr), 'client')
@@ -580,7 +728,7 @@ def run_client_case(case):
             if ok:
                 settle()
                 if k == 'connect':
-                    log.append(('connect_result', cl._sock.fileno() >= 0))
+                    log.append(('connect_result', sock_open()))
                 csnap()
         log.append(('op', len(case['ops']), len(probe.seen)))
         for a in peers:
@@ -589,24 +737,16 @@ def run_client_case(case):
         csnap()
         return {'log': canon_log(log), 'seen': probe.seen, 'applied': applied, 'bad_connect': bad_connect,
                 'snaps': snaps, 'sends': [e[2] for e in log if e[0] == 'send'],
-                'final': [bool(cl._connected), [len(x) for x in cl._buffer], bool(cl._closeflag),
-                          cl._sock.fileno() >= 0]}
+                'final': [bool(cl.connected), buffered(), close_pending(), sock_open()]}
     finally:
         S.socket = saved
         m._running = False
-        for a in [ls] + [x for x in (getattr(locals().get('cl'), '_sock', None),) if x is not None]:
+        for a in [ls] + list(CSock.made):
             try:
                 a.close()
             except OSError:
                 pass
-        for fd in (poller._ctrl_recv, poller._ctrl_send):
-            try:
-                os.close(fd) if isinstance(fd, int) else fd.close()
-            except OSError:
-                pass
-        pp = getattr(poller, '_poller', None)
-        if hasattr(pp, 'close'):
-            pp.close()
+        dispose_poller(poller, poller_fds)
         if tmp:
             shutil.rmtree(tmp, ignore_errors=True)
 
@@ -657,6 +797,107 @@ def client_stimuli(log, seen):
                 st.append(['close', 0, 0])
         i = j
     return st
+
+
+# ------------------------------------------------------------------------------------------------ poller emission rule
+
+class FakePoll:
+    """stands for select.poll() / select.epoll(): registrations are recorded, poll() returns the scripted result"""
+    def __init__(self, epoll):
+        self.epoll, self.reg, self.script = epoll, {}, []
+
+    @staticmethod
+    def _no(fd):
+        n = fd if isinstance(fd, int) else fd.fileno()
+        if n < 0:
+            raise ValueError('file descriptor cannot be a negative integer (-1)')
+        return n
+
+    def register(self, fd, mask=0):
+        self.reg[self._no(fd)] = mask
+
+    def modify(self, fd, mask):
+        self.reg[self._no(fd)] = mask
+
+    def unregister(self, fd):
+        n = self._no(fd)
+        if n not in self.reg:
+            raise (OSError(errno.ENOENT, 'not registered') if self.epoll else KeyError(n))
+        del self.reg[n]
+
+    def poll(self, *a, **kw):
+        r, self.script = self.script, []
+        return r
+
+    def close(self):
+        pass
+
+
+class FakeSelect:
+    def __init__(self, real):
+        self._real, self.made = real, []
+
+    def __getattr__(self, n):
+        return getattr(self._real, n)
+
+    def poll(self):
+        self.made.append(FakePoll(False))
+        return self.made[-1]
+
+    def epoll(self, *a, **kw):
+        self.made.append(FakePoll(True))
+        return self.made[-1]
+
+
+class EmitRec(BaseComponent):
+    channel = 'emit'
+
+    def init(self):
+        self.got = []
+
+    @handler('_read', '_write', '_disconnect', '_error', priority=50)
+    def _on(self, event, sock, *a):
+        self.got.append((event.name, sock))
+
+
+def run_emit_case(case):
+    """one scripted kernel report (IN / OUT / ERR / HUP bits) for a registered socket -> what the poller fires"""
+    real = getattr(P, 'select', None)
+    if real is None:
+        DEGRADED.add('pollers.select (emission rule not checked)')
+        return {'__harness__': 'circuits.core.pollers has no module-level select'}
+    fake = FakeSelect(real)
+    P.select = fake
+    a = b = None
+    before = fdset()
+    try:
+        m = Manager()
+        poller = getattr(P, case['poller'])().register(m)
+        new_fds = fdset() - before
+        rec = EmitRec().register(m)
+        a, b = socket.socketpair()
+        m._running = True
+        m.tick(0)
+        poller.addReader(rec, a)
+        poller.addWriter(rec, a)
+        if not fake.made:
+            DEGRADED.add('pollers.select (emission rule not checked)')
+            return {'__harness__': 'the poller did not create its kernel object through pollers.select'}
+        i, o, e, h = case['bits']
+        mask = (real.EPOLLIN if i else 0) | (real.EPOLLOUT if o else 0) | (real.EPOLLERR if e else 0) | (real.EPOLLHUP if h else 0)
+        fake.made[-1].script = [(a.fileno(), mask)]
+        for _ in range(4):
+            m.tick(0)
+        m._running = False
+        kinds = {'_read': 0, '_write': 1, '_disconnect': 2, '_error': 3}
+        return {'events': [kinds[n] for (n, sk) in rec.got if sk is a]}
+    finally:
+        P.select = real
+        for x in (a, b):
+            if x is not None:
+                x.close()
+        if 'poller' in locals():
+            dispose_poller(poller, new_fds)
 
 
 # ------------------------------------------------------------------------------------------------ Coq terms
@@ -756,11 +997,38 @@ def directed(kinds=KINDS):
     return out
 
 
+def directed_unread(kinds=KINDS):
+    """the peer sends several reads' worth and goes away while input is still unread at the server, in the ways that
+    make the kernel report readable + error/hang-up at once (the server wrote to it and the peer never read: RST)"""
+    pats = {
+        'write_data_close': [['write', 0, 5], ['send', 0, 700, 'nosettle'], ['pclose', 0]],
+        'write_data_reset': [['write', 0, 5], ['send', 0, 700, 'nosettle'], ['preset', 0]],
+        'data_reset': [['send', 0, 700, 'nosettle'], ['preset', 0]],
+        'data_halfclose_write_close': [['send', 0, 500, 'nosettle'], ['shutwr', 0, 'nosettle'], ['write', 0, 5, 'nosettle'],
+                                       ['pclose', 0]],
+        'greeting_then_much_data': [['write', 0, 5, 'nosettle'], ['send', 0, 2000, 'nosettle'], ['pclose', 0]],
+        'read_some_then_reset': [['send', 0, 100], ['write', 0, 5], ['send', 0, 300, 'nosettle'], ['send', 0, 300, 'nosettle'],
+                                 ['preset', 0]],
+    }
+    out = []
+    for kind in kinds:
+        for fam in ('tcp', 'unix'):
+            for name in sorted(pats):
+                ops = [['connect', 0], ['connect', 1], ['send', 1, 3]] + [list(o) for o in pats[name]] + [['send', 1, 4]]
+                out.append({'k': 'server', 'poller': kind, 'family': fam, 'ops': ops})
+    return out
+
+
+def emit_cases():
+    return [{'k': 'emit', 'poller': kind, 'bits': [i, o, e, h]}
+            for kind in ('Poll', 'EPoll') for i in (0, 1) for o in (0, 1) for e in (0, 1) for h in (0, 1)]
+
+
 class C12(Prop):
     id = 'C12'
     props_file = 'Props/C12.v'
     imports = ['Model.ServerConn', 'Model.ServerConnObs']
-    quick_n = 180
+    quick_n = 270
     thorough_n = 3000
     rule = ('histories of peer actions (connect, send n, shutdown(WR), close, reset [SO_LINGER 0 on TCP / close with unread '
             'data on AF_UNIX], drain, not reading so that the 4.5 KB send buffer fills) over 1-4 concurrent connections '
@@ -779,7 +1047,7 @@ class C12(Prop):
 
     def __init__(self):
         self._obs = {}
-        self.stats = {'ops': {}, 'pollers': {}, 'families': {}, 'stimuli': {}, 'branches': {}}
+        self.stats = {'ops': {}, 'pollers': {}, 'families': {}, 'stimuli': {}, 'branches': {}, 'degraded': []}
 
     # ---- generation
     def generate(self, rng, n, tier):
@@ -789,7 +1057,7 @@ class C12(Prop):
             # a deterministic third of the directed scenarios, rotating with the seed-derived offset
             off = rng.randrange(4)
             d = [c for i, c in enumerate(d) if i % 4 == off]
-        cases += d
+        cases += d + directed_unread() + emit_cases()
         nrand = max(0, n - len(cases))
         for i in range(nrand):
             if rng.random() < 0.35:
@@ -869,7 +1137,30 @@ class C12(Prop):
     # ---- implementation
     def impl(self, c):
         key = common.canon(c)
-        if c.get('k', 'server') == 'client':
+        try:
+            obs = self.run(c)
+        except KeyboardInterrupt:
+            raise
+        except BaseException as e:
+            if blame(e) == 'impl':
+                raise                      # an exception escaping circuits code during the driven history: a violation
+            # an exception of the harness's own observation code says nothing about the implementation: drop the case
+            import traceback
+            obs = {'__harness__': '%s: %s' % (type(e).__name__, e), 'tb': traceback.format_exc()[-500:]}
+        if '__harness__' in obs:
+            DEGRADED.add('case dropped: ' + obs['__harness__'][:120])
+            self.stats['dropped_cases'] = self.stats.get('dropped_cases', 0) + 1
+        self.stats['degraded'] = sorted(DEGRADED)
+        self._obs[key] = obs
+        if '__harness__' not in obs:
+            self._count(c, obs)
+        return obs
+
+    def run(self, c):
+        kind = c.get('k', 'server')
+        if kind == 'emit':
+            return run_emit_case(c)
+        if kind == 'client':
             obs = run_client_case(c)
             obs['stimuli'] = client_stimuli(obs['log'], obs['seen'])
         else:
@@ -877,13 +1168,15 @@ class C12(Prop):
             st, calls = stimuli(obs['log'])
             obs['stimuli'], obs['calls'] = st, calls
             obs['gone'] = sorted({e[1] for e in obs['log'] if e[0] == 'peername_err'})
+            obs['failed_send'] = sorted({e[1] for e in obs['log'] if e[0] == 'send' and e[3] in ('pipe', 'fatal')})
         del obs['log']
-        self._obs[key] = obs
-        self._count(c, obs)
         return obs
 
     def _count(self, c, obs):
         st = self.stats
+        if c.get('k') == 'emit':
+            st['families']['emit'] = st['families'].get('emit', 0) + 1
+            return
         st['pollers'][c['poller']] = st['pollers'].get(c['poller'], 0) + 1
         fam = c.get('k', 'server') + '/' + c.get('family', 'unix')
         st['families'][fam] = st['families'].get(fam, 0) + 1
@@ -903,20 +1196,28 @@ class C12(Prop):
     # ---- model
     def model_term(self, c):
         obs = self._obs.get(common.canon(c))
-        if obs is None or 'stimuli' not in obs:
+        if obs is None or '__harness__' in obs or '__crash__' in obs:
+            return None
+        if c.get('k') == 'emit':
+            i, o, e, h = c['bits']
+            return 'obs_emit %s %s %s' % tuple('true' if x else 'false' for x in (i, o, e or h))
+        if 'stimuli' not in obs:
             return None
         if c.get('k', 'server') == 'client':
-            return 'obs_client [%s]' % '; '.join(cstim_term(x) for x in obs['stimuli'])
+            return 'obs_client %s [%s]' % ('false' if obs['final'][2] is None else 'true',
+                                           '; '.join(cstim_term(x) for x in obs['stimuli']))
         hm = 'false' if c['poller'] == 'Select' else 'true'
         return 'obs_server %s [%s]' % (hm, '; '.join(stim_term(x) for x in obs['stimuli']))
 
     def obs_for_model(self, c, obs):
         if isinstance(obs, dict) and '__crash__' in obs:
             return [-999]
+        if c.get('k') == 'emit':
+            return obs['events']
         if c.get('k', 'server') == 'client':
             evs = [e if e[0] != 3 else [3, bytes(e[1])] for e in obs['seen']]
             conn, pend, flag, sopen = obs['final']
-            return [evs, obs['sends'], conn, pend, flag, sopen]
+            return [evs, obs['sends'], conn, pend, sopen] + ([] if flag is None else [flag])
         calls = [[0, x[1]] if x[0] == 'recv' else [1, x[1], x[2]] for x in obs['calls']]
         evs = []
         for e in obs['seen']:
@@ -930,7 +1231,13 @@ class C12(Prop):
 
     # ---- oracle: the property read directly on the observer's view and the tables
     def oracle(self, c, obs):
-        if isinstance(obs, dict) and '__crash__' in obs:
+        if isinstance(obs, dict) and ('__crash__' in obs or '__harness__' in obs):
+            return None
+        if c.get('k') == 'emit':
+            i, o, e, h = c['bits']
+            if i and (2 in obs['events'] or obs['events'][:1] != [0]):
+                return ('poller: a hang-up/error reported together with readable input must not precede the reads; %s fired %r for '
+                        'IN=%d OUT=%d ERR=%d HUP=%d (0 _read, 1 _write, 2 _disconnect, 3 _error)' % (c['poller'], obs['events'], i, o, e, h))
             return None
         if c.get('k', 'server') == 'client':
             return self.oracle_client(c, obs)
@@ -953,31 +1260,26 @@ class C12(Prop):
                 nclosed += 1
                 continue
             if e[0] == 'snap':
-                t = e[1]
-                clients = set(t[0])
+                rows, lrow = e[1]
+                for (k, is_open, track, residue, buf, pl, pk, pv) in rows:
+                    refs = 'server containers %d, other server references %d, poller lists %d, poller dict keys %d, poller dict values %d' % (
+                        track, residue, pl, pk, pv)
+                    if k in ended:
+                        return 'no-trace: socket %d is still referenced after its disconnect (%s)' % (k, refs)
+                    if not is_open:
+                        return 'no-trace: state is kept for socket %d which is closed and not a connected client (%s)' % (k, refs)
+                    if track < 1:
+                        return 'socket %d is open and connected but the server does not track it' % k
                 if nlisdown:
-                    if t[8]:
-                        return 'close(): the listening socket is still in table(s) %r after close()' % (t[8],)
+                    if any(lrow[1:]):
+                        return 'close(): the listening socket is still referenced after close() (server containers %d, poller lists %d, keys %d, values %d)' % tuple(lrow[1:])
                     if nclosed:
-                        pending = {k[0] for k in t[1]}
-                        for k in clients:
-                            if k not in t[3] or k not in pending:
+                        for (k, is_open, track, residue, buf, pl, pk, pv) in rows:
+                            if track < 2 or not buf:
                                 return ('close(): client %d survived close() although nothing is buffered for it / it is not '
                                         'queued for a deferred close' % k)
-                elif sorted(set(t[8]) - {7}) != [4, 6]:
-                    return 'listening socket registration is %r while the server is open' % (t[8],)
-                names = ('_clients', '_buffers', '_buffers', '_closeq', 'poller._read', 'poller._write',
-                         'poller._targets', 'poller._map')
-                for idx in (1, 2, 3, 4, 5, 6, 7):
-                    keys = [k[0] if idx == 1 else k for k in t[idx]]
-                    for k in keys:
-                        if k in ended:
-                            return 'no-trace: socket %d is still in %s after its disconnect' % (k, names[idx])
-                        if k not in clients:
-                            return 'no-trace: %s holds socket %d which is not a connected client' % (names[idx], k)
-                for k in clients:
-                    if k in ended:
-                        return 'no-trace: socket %d is still in _clients after its disconnect' % k
+                elif not (lrow[0] and lrow[2] >= 1 and lrow[3] >= 1):
+                    return 'listening socket registration is %r while the server is open' % (lrow,)
                 continue
             kind, s = e[0], e[1]
             if s not in per:
@@ -1001,17 +1303,26 @@ class C12(Prop):
             want = pattern(conn, 0, obs['sent'][s])
             if got != want[:len(got)]:
                 return 'socket %d: read events carry bytes that are not what the peer sent, in order' % s
+            # what the kernel still delivers: a raw reader that got the same peer actions and server writes and started
+            # reading only at the very end received obs['reference'][s] bytes; a server that reads until the peer's
+            # EOF / reset must not have fewer (does not apply when the server itself ended the connection)
+            server_ended = (ncloseall or s in obs['failed_send'] or
+                            any(ok and op[0] == 'close' and op[1] == conn for op, ok in zip(c['ops'], obs['applied'])))
+            ref = min(obs['reference'][s], len(want))
+            if not server_ended and len(got) < ref:
+                return ('socket %d: the peer sent %d bytes and went away; a raw reader on an identical connection still gets %d of '
+                        'them, the read events carry only %d' % (s, len(want), ref, len(got)))
             touched = ncloseall or any(op[0] in ('write', 'close', 'preset') and len(op) > 1 and op[1] == conn for op in c['ops'])
             if not touched and 'e' not in word and got != want:
                 return 'socket %d: peer sent %d bytes and closed in an orderly way, read events carry only %d' % (s, len(want), len(got))
         last = [e for e in seen if e[0] == 'snap'][-1][1]
-        if any(last[:8]):
-            return 'no-trace: tables not empty after every connection has ended: %r' % (last,)
+        if last[0]:
+            return 'no-trace: tables not empty after every connection has ended: %r' % (last[0],)
         if nclosed != ncloseall or nlisdown != (1 if ncloseall else 0):
             return 'close(): %d close() requests gave %d closed events and %d disconnects of the listening socket' % (
                 ncloseall, nclosed, nlisdown)
-        if ncloseall and not (obs['sock_none'] and obs['ls_closed']):
-            return 'close(): the listening socket is still open / still referenced by the server after close()'
+        if ncloseall and not obs['ls_closed']:
+            return 'close(): the listening socket is still open after close()'
         return known
 
     def oracle_client(self, c, obs):
@@ -1036,6 +1347,7 @@ class C12(Prop):
         """after `disconnected` (socket closed, until a connect makes a new one): not connected, nothing buffered, no
         deferred close; and the poller never keeps a closed socket — also when writes / closes arrive late"""
         for i, (conn, nbuf, flag, sopen, dead) in enumerate(obs['snaps']):
+            flag = bool(flag)       # None: not observable in this tree (degraded)
             if dead and not obs['bad_connect']:     # connect while connected registers the socket twice: API misuse
                 return 'client-late: the poller holds %d closed socket object(s) at quiescence (step %d)' % (dead, i)
             if not sopen and (conn or nbuf or flag):
@@ -1049,8 +1361,10 @@ class C12(Prop):
         return None
 
     def nontrivial(self, c, obs):
-        if isinstance(obs, dict) and '__crash__' in obs:
+        if isinstance(obs, dict) and ('__crash__' in obs or '__harness__' in obs):
             return False
+        if c.get('k') == 'emit':
+            return sum(c['bits']) >= 2
         if c.get('k', 'server') == 'client':
             return len([e for e in obs['seen'] if e[0] == 1]) >= 1
         # late request: a write/close op applied to a connection after the snapshot that shows it ended
@@ -1072,7 +1386,7 @@ class C12(Prop):
         return any(e[0] == 'error' for e in obs['seen'])
 
     def search(self, rng, tier):
-        for c in directed():
+        for c in directed() + directed_unread() + emit_cases():
             yield c
         for _ in range(600):
             yield self.gen_server(rng, 'thorough')
